@@ -188,7 +188,7 @@ func (c11) Info(t core.Tier) core.Info {
 	}
 }
 
-func (c11) NumCases(t core.Tier) int { return len(c11Cells) + tierN(t, 1500, 100000) }
+func (c11) NumCases(t core.Tier) int { return len(c11Cells) + tierN(t, 12000, 400000) }
 
 func expectedMessage(m zconst.LangMap, dtype, code string, params map[string]any, value any) (string, bool) {
 	tpl, ok := m[dtype][code]
